@@ -368,7 +368,11 @@ class CallMixin:
             fdef, mod, cinfo = found
             yield from self.call_repo(fn.name, fdef, mod, None, args, kwargs, st, node)
         elif k == "class":
-            yield from self.construct(fn.name, args, kwargs, st, node)
+            op = self.opaque_spec(fn.name.split(".")[-1], fn.name)      # the FUC's own slice statement wins over a global class declaration
+            if op:
+                yield st, self.opaque_call(op[0], fn.name, args, kwargs, st, node)
+            else:
+                yield from self.construct(fn.name, args, kwargs, st, node)
         elif k == "boundmethod":
             yield from self.call_attr(fn.bound, fn.name, args, kwargs, st, node)
         elif k == "external":
@@ -384,7 +388,7 @@ class CallMixin:
             return
         decl = dsl.REG.contracts.get(name)
         op = self.opaque_spec(name.split(".")[-1], name)
-        if decl is None and op is not None:
+        if op is not None:          # externals: the FUC's own slice statement wins over a global assumed contract
             yield st, self.opaque_call(op[0], name, args, kwargs, st, node)
             return
         if decl is None:
@@ -628,8 +632,8 @@ class CallMixin:
                 yield st, PyList([])
             else:
                 (x,) = args
-                if isinstance(x, PyList) or isinstance(x.ty, TSeq):
-                    yield st, x
+                if isinstance(x, PyList) or isinstance(x.ty, (TSeq, TLSet)):
+                    yield st, x         # values are immutable in the model: a copy of a list is an equal list
                 else:
                     raise Unsupported("list(%r)" % x.ty, node)
         elif name == "set":
@@ -720,6 +724,11 @@ class CallMixin:
             for t, n in m.items():
                 if isinstance(x.ty, t):
                     return Callable_("builtin", n)
+        if isinstance(x, Val) and isinstance(x.ty, TOpaque):
+            # the run-time class of an opaque value: an uninterpreted function of the value
+            (srt,) = x.ty.comps()
+            tsort = TOpaque("Type").comps()[0]
+            return Val(TOpaque("Type"), [z3.Function("typeof!%s" % srt, srt, tsort)(x.t)])
         raise Unsupported("type() of %r" % (x,), node)
 
     def isinstance_val(self, x, c, node):
@@ -902,12 +911,15 @@ class CallMixin:
             if isinstance(dflt, PyList) and not dflt.items and isinstance(ft, TSeq):
                 dflt = empty_seq(ft.elem)
             if isinstance(dflt, Val):
+                if fname in ty.required:
+                    yield st, Val(ft, obj.terms[lo + 1:hi])
+                    return
                 try:       # one conditional value instead of two paths
                     yield st, ite_val(obj.terms[lo], Val(ft, obj.terms[lo + 1:hi]), dflt)
                     return
                 except Exception:
                     pass
-            for st1, ok in self.branch(st, obj.terms[lo]):
+            for st1, ok in self.branch(st, ty.present(obj.terms, fname)):
                 yield st1, (Val(ft, obj.terms[lo + 1:hi]) if ok else dflt)
             return
         if meth == "update" and len(args) == 1 and isinstance(args[0], Val) and isinstance(args[0].ty, TRec) and args[0].ty.rname == ty.rname:
@@ -922,5 +934,9 @@ class CallMixin:
             terms[-1] = z3.Const(fresh_name("recrest"), terms[-1].sort())      # the undeclared keys: merged, untracked
             self.write_back(lv, Val(ty, terms), st, node)
             yield st, NONE
+            return
+        op = self.opaque_spec(meth, "?." + meth)
+        if op is not None:
+            yield st, self.opaque_call(op[0], "?." + meth, [obj] + args, kwargs, st, node)
             return
         raise Unsupported("dict(record).%s" % meth, node)
